@@ -97,6 +97,7 @@ def pOp : P Op := do
     pure (.minc ⟨fr, a, d, bl, av⟩)
   | "ag" => do let s ← pSpec; let l ← pNat; pure (.addGrid s (l != 0))
   | "em" => do let s ← pSpec; let h ← pName; let b ← pName; let p ← pPay; pure (.embed s h b p)
+  | "es" => do let s ← pSpec; let h ← pName; let b ← pName; let p ← pPay; let v ← pRat; pure (.embedStandalone s h b p v)
   | "af" => do let n ← pName; let r ← pName; let v ← pRat; let c ← pCentre; pure (.addBlockFresh n r v c)
   | "xb" => .readdBlock <$> pName
   | "xr" => .readdRocktype <$> pName
